@@ -236,6 +236,15 @@ def main():
     if a.only:
         keep = set(a.only.split(','))
         jobs = [j for j in jobs if j.id in keep]
+    # the thorough tier is sized by total wall time: if the budgets of all cells add up to more
+    # than VERIF_THOROUGH_CAP_MIN minutes on this machine, every budget is scaled down (cells
+    # that do not close their path tree within it are reported inconclusive, never as held)
+    if a.tier == 'thorough' and jobs and 'VERIF_BUDGET_SCALE' not in os.environ:
+        cap = float(os.environ.get('VERIF_THOROUGH_CAP_MIN', '25')) * 60 * NPROC
+        total = sum(j.budget for j in jobs)
+        if total > cap:
+            os.environ['VERIF_BUDGET_SCALE'] = '%.4f' % (cap / total)
+            log('  thorough tier: budgets scaled by %s (sum of cell budgets %.0f s, cap %.0f s)' % (os.environ['VERIF_BUDGET_SCALE'], total, cap))
     results = run_jobs(mod_name, a.tier, jobs, kf_active, log) if not harness_error else {}
     replayed = 0
     for jid, r in sorted(results.items()):
